@@ -78,9 +78,22 @@ def spec_allowed(exit_bt: bool, exit_ipv8: bool, pfx: bytes, d: bytes) -> bool:
 
 
 def generate(ctx: Ctx):
-    src, meta = gen_exitpolicy.translate()
-    ctx.extra["translator"] = meta
-    return [("Ipv8/C06/GenPolicy.lean", src)]
+    """two generated files; when one translation fails the other is still written, so its theorems are still judged"""
+    import vlib
+    out, errs = [], []
+    for rel, fn, key in (("Ipv8/C06/GenPolicy.lean", gen_exitpolicy.translate, "translator"),
+                         ("Ipv8/C06/GenPaths.lean", gen_exitpolicy.translate_paths, "translator_paths")):
+        try:
+            src, meta = fn()
+            ctx.extra[key] = meta
+            out.append((rel, src))
+        except vlib.TranslatorError as e:
+            errs.append(str(e))
+    if errs:
+        for rel, src in out:
+            vlib.write_if_changed(vlib.LEAN / rel, src)
+        raise vlib.TranslatorError("; ".join(errs))
+    return out
 
 
 # ---- environment: real community + real exit sockets on a loop with fake datagram endpoints and resolver ---------------
@@ -707,6 +720,7 @@ async def run_history(ctx: Ctx, env: Env, h, fixed_events=None):
         ctx.count("B:event:" + e["ev"])
         n_gates, n_dns, n_log = len(env.gates), len(env.dns), len(env.log)
         enabled_before = {cid: es.enabled for cid, es in sockobj.items()}
+        qlen_before = {cid: len(es.queue) for cid, es in sockobj.items()}
         cid = e.get("cid")
         env.cur_cid = cid
         if e["ev"] == "flags":
@@ -813,6 +827,43 @@ async def run_history(ctx: Ctx, env: Env, h, fixed_events=None):
             ctx.count("B:socket-opened")
         if not new and e["ev"] in ("data", "outside"):
             stats["dropped"] += 1
+        # which branch of the anchored code this event took (classified from the inputs and the observed effect)
+        kinds = [x[0] for x in new]
+        if e["ev"] == "data":
+            dnull = (e["dest"][1], e["dest"][2]) == NULL
+            own = any(c["cid"] == cid and [c["ip"], c["port"]] == e["src"] for c in h["circs"])
+            p_ok = spec_allowed(exit_bt, exit_ipv8, env.pfx, bytes.fromhex(e["data"]))
+            if own:
+                br = "own-circuit:" + ("delivered" if "loc" in kinds else "dropped(no TunnelEndpoint)")
+            elif dnull:
+                br = "drop:null-destination"
+            elif cid not in sockobj:
+                br = "drop:unknown-circuit"
+            elif not sockobj[cid].enabled:
+                br = "drop:first-cell-from-foreign-ip"
+            elif not p_ok:
+                br = "drop:policy" + ("(socket just enabled)" if not enabled_before[cid] else "")
+            elif "resolve" in kinds:
+                br = "resolution-started"
+            elif "emit" in kinds:
+                br = "emitted"
+            elif e["dest"][0] == "d":
+                br = "domain:other"
+            else:
+                br = "queued" + (":queue-full(oldest dropped)" if qlen_before.get(cid) == 10 and len(sockobj[cid].queue) == 10 else "")
+            ctx.count("B:branch:data:" + br)
+        elif e["ev"] == "outside":
+            p_ok = spec_allowed(exit_bt, exit_ipv8, env.pfx, bytes.fromhex(e["data"]))
+            br = "tunnelled" if "tunnel" in kinds else "drop:ipv4-mapped-source" if e["host"].startswith("::ffff:") else \
+                "drop:policy" if not p_ok else "other"
+            ctx.count("B:branch:outside:" + br)
+        elif e["ev"] == "resolved":
+            br = "emitted" if "emit" in kinds else "no-address" if not minfos else \
+                "queued" if len(sockobj[cid].queue) > qlen_before.get(cid, 0) else "dropped(policy, null address or full queue)"
+            ctx.count("B:branch:resolved:" + br)
+        elif e["ev"] == "open":
+            ctx.count("B:branch:open%d:%s" % (e["fam"], "flush-emitted" if "emit" in kinds else
+                                              "flush-dropped-all" if e["fam"] == 6 and qlen_before.get(cid) else "nothing-queued"))
         # ---- canonical reply, same shape as the driver's ----
         if e["ev"] == "flags":
             rep = "ok"
